@@ -5,6 +5,7 @@ import (
 	"go/ast"
 	"go/token"
 	"go/types"
+	"golang.org/x/tools/go/cfg"
 	"strings"
 
 	"j5verif/checker/core"
@@ -383,4 +384,48 @@ func IsLenGreaterThanOne(info *types.Info, e ast.Expr) bool {
 		return false
 	}
 	return (b.Op == token.GTR && k == 1) || (b.Op == token.GEQ && k == 2) || (b.Op == token.NEQ && k == 1)
+}
+
+// ReachableAvoiding reports whether the block holding target can be reached
+// from the function entry along control-flow edges none of which satisfies
+// excl(cond, branch) — i.e. whether target is NOT guarded by such an edge on
+// every path. (go/cfg; conditions are the last node of a two-successor block.)
+func ReachableAvoiding(body *ast.BlockStmt, target ast.Node, excl func(cond ast.Expr, branch bool) bool) bool {
+	g := cfg.New(body, func(*ast.CallExpr) bool { return true })
+	var goal *cfg.Block
+	for _, b := range g.Blocks {
+		for _, n := range b.Nodes {
+			if n.Pos() <= target.Pos() && target.End() <= n.End() {
+				goal = b
+			}
+		}
+	}
+	if goal == nil || len(g.Blocks) == 0 {
+		return true
+	}
+	seen := map[*cfg.Block]bool{}
+	var walk func(b *cfg.Block) bool
+	walk = func(b *cfg.Block) bool {
+		if b == goal {
+			return true
+		}
+		if seen[b] {
+			return false
+		}
+		seen[b] = true
+		var cond ast.Expr
+		if len(b.Succs) == 2 && len(b.Nodes) > 0 {
+			cond, _ = b.Nodes[len(b.Nodes)-1].(ast.Expr)
+		}
+		for i, s := range b.Succs {
+			if cond != nil && excl(cond, i == 0) {
+				continue
+			}
+			if walk(s) {
+				return true
+			}
+		}
+		return false
+	}
+	return walk(g.Blocks[0])
 }
